@@ -730,24 +730,29 @@ def _ev(f, env, oenv):
     return _ev(f[1], env, oenv) or _ev(f[2], env, oenv)
 
 
-def order_equivalent(f1, f2):
-    """decide f1 <=> f2 by enumerating, for every compared pair, the three possible orders (<, =, >)"""
+def order_equivalent(f1, f2, strict_only=False, implies=False):
+    """decide f1 <=> f2 by enumerating, for every compared pair, the three possible orders (<, =, >).
+    strict_only: ignore the orders in which some compared pair is equal (ties);  implies: decide f2 => f1 instead."""
     ps = _pairs(f1, _pairs(f2))
     os_ = _others(f1, _others(f2))
-    for outcome in itertools.product('<=>', repeat=len(ps)):
+    for outcome in itertools.product('<>' if strict_only else '<=>', repeat=len(ps)):
         env = dict(zip(ps, outcome))
         for bools in itertools.product((False, True), repeat=len(os_)):
             oenv = dict(zip(os_, bools))
-            if _ev(f1, env, oenv) != _ev(f2, env, oenv):
+            a, b = _ev(f1, env, oenv), _ev(f2, env, oenv)
+            if (b and not a) if implies else (a != b):
                 return False, ', '.join(f"{fmt_term(p_[0])} {o} {fmt_term(p_[1])}" for p_, o in env.items())
     return True, ''
 
 
-def rule_geom_guards(ctx):
+def rule_geom_guards(ctx, exact=True):
     """the geometric guards of add_point are, as boolean functions of the order of the compared slopes, exactly the strict
     tests of the algorithm: reject  <=>  (p1-r[2] < r[2]-r[0]) || (p2-r[3] > r[3]-r[1]);  tighten the upper bound  <=>
     p1-r[1] < r[3]-r[1];  tighten the lower bound  <=>  p2-r[0] > r[2]-r[0].  Decided by enumerating the three possible
-    orders of every compared pair, so any equivalent spelling (negations, swapped operands, helper booleans) is accepted."""
+    orders of every compared pair, so any equivalent spelling (negations, swapped operands, helper booleans) is accepted.
+    exact=False is the part the epsilon guarantee (C03) needs: a point outside the rectangle is always rejected (rejecting
+    more only shortens segments, so there the cut condition need only be implied by the specification); the tighten
+    conditions stay exact - tightening on a tie while the cut is strict breaks the bound (seeded change C03-a)."""
     obs = []
     R = lambda k: ('index', ('field', 'rectangle', THIS), ('lit', k))
 
@@ -798,9 +803,10 @@ def rule_geom_guards(ctx):
         for r in rets:
             fm = path_formula(r, is_bootstrap)
             extra = _others(fm)
-            ok, wit = order_equivalent(fm, spec_cut)
-            obs.append(Ob('GEOM-GUARDS', f, r, 'reject <=> (p1 - r[2] < r[2] - r[0]) || (p2 - r[3] > r[3] - r[1]), strict in both tests',
-                          'the condition of `return false` is equivalent to it for every order of the compared slopes' if ok else
+            ok, wit = order_equivalent(fm, spec_cut, implies=not exact)
+            obs.append(Ob('GEOM-GUARDS', f, r, 'reject <=> (p1 - r[2] < r[2] - r[0]) || (p2 - r[3] > r[3] - r[1]), strict in both tests' if exact else
+                          'reject <= (p1 - r[2] < r[2] - r[0]) || (p2 - r[3] > r[3] - r[1]): a point outside the extreme-slope rectangle is never accepted',
+                          ('the condition of `return false` is equivalent to it for every order of the compared slopes' if exact else 'the condition of `return false` is implied by it for every order of the compared slopes') if ok else
                           (f"differs when {wit}" if not extra else f"also depends on `{fmt_term(extra[0])[:60]}`"), OK if ok else VIOLATED, arm='cut'))
             obs.append(Ob('REJECT-ONLY-GEOMETRIC', f, r, 'add_point returns false only because the new point lies strictly outside the extreme-slope rectangle (never because of a counter or size)',
                           'depends only on the two cut comparisons' if not extra else 'also depends on ' + '; '.join(fmt_term(x)[:60] for x in extra), OK if not extra else VIOLATED, arm='reject'))
@@ -822,7 +828,7 @@ def rule_geom_guards(ctx):
                 def skip(fm, tt, cutf=cutf):
                     if is_bootstrap(fm, tt):
                         return True
-                    ok_, _ = order_equivalent(fm, cutf)
+                    ok_, _ = order_equivalent(fm, cutf, implies=not exact)
                     return ok_
                 fm = path_formula(i, skip)
                 ok, wit = order_equivalent(fm, spec)
@@ -892,9 +898,103 @@ def rule_precision(ctx):
     return obs
 
 
+# ------------------------------------------------------------------------------------------ SLOPE-ORDER
+def rule_slope_order(ctx, exact=True):
+    """The geometric guards compare Slope values with Slope::operator< / > / == / !=.  GEOM-GUARDS treats those as the
+    order of the slopes; this rule discharges that reading: each operator, with calls to its sibling operators expanded, is
+    - as a boolean function of the order of the cross products dy * p.dx and dx * p.dy - exactly its own relation."""
+    obs = []
+    SL = OPLM + '::Slope::operator'
+    RELS = ('<', '>', '==', '!=', '<=', '>=')
+    THISV, PV = ('deref', THIS), None
+
+    def factors(t):
+        t = nocast(strip_cast(t))
+        if t[0] == 'op' and len(t) == 4 and t[1] == '*':
+            return factors(t[2]) + factors(t[3])
+        return [t]
+
+    for u in ctx.units:
+        recs = {}
+        for f in u.functions.values():
+            if f.tname.startswith(SL) and f.tname[len(SL):] in RELS and len(f.params) == 1:
+                recs.setdefault(f.qname.rsplit('::', 1)[0], {})[f.tname[len(SL):]] = f
+        for rec, ops in sorted(recs.items()):
+            def formula(rel, swap, depth):
+                """('atom', rel') over the pair (L, R) = (dy * p.dx, dx * p.dy), boolean connectives, or None"""
+                f = ops.get(rel)
+                if f is None or depth > 4:
+                    return None
+                rets = f.returns()
+                if len(rets) != 1:
+                    return None
+                P = ('param', f.params[0]['name'])
+                L = sorted(map(repr, [('field', 'dy', THIS), ('field', 'dx', P)]))
+                Rr = sorted(map(repr, [('field', 'dx', THIS), ('field', 'dy', P)]))
+
+                def go(t, sw):
+                    t = strip_cast(t)
+                    if t[0] == 'un' and t[1] == '!':
+                        x = go(t[2], sw)
+                        return ('!', x) if x else None
+                    if t[0] == 'op' and len(t) == 4 and t[1] in ('&&', '||'):
+                        a, b = go(t[2], sw), go(t[3], sw)
+                        return (t[1], a, b) if a and b else None
+                    if t[0] == 'op' and len(t) == 4 and t[1] in RELS:
+                        a, b = nocast(strip_cast(t[2])), nocast(strip_cast(t[3]))
+                        if {repr(a), repr(b)} == {repr(('deref', THIS)), repr(P)}:
+                            # a sibling operator applied to the same two slopes (possibly swapped)
+                            return formula_cached(t[1], sw != (a == P), depth + 1)
+                        fa, fb = sorted(map(repr, factors(a))), sorted(map(repr, factors(b)))
+                        r_ = t[1]
+                        if (fa, fb) == (Rr, L):
+                            fa, fb = fb, fa
+                            r_ = {'<': '>', '>': '<', '<=': '>=', '>=': '<='}.get(r_, r_)
+                        if (fa, fb) == (L, Rr):
+                            if sw:
+                                r_ = {'<': '>', '>': '<', '<=': '>=', '>=': '<='}.get(r_, r_)
+                            return ('atom', r_)
+                    return None
+                return go(f.term(f.n(rets[0])['ch'][0], inline=True), swap)
+
+            memo = {}
+
+            def formula_cached(rel, swap, depth):
+                k = (rel, swap)
+                if k not in memo:
+                    memo[k] = None  # a cycle between operators stays undecided
+                    memo[k] = formula(rel, swap, depth)
+                return memo[k]
+
+            def ev(fm, o):
+                if fm[0] == 'atom':
+                    return {'<': o == '<', '>': o == '>', '<=': o in '<=', '>=': o in '>=', '==': o == '=', '!=': o != '='}[fm[1]]
+                if fm[0] == '!':
+                    return not ev(fm[1], o)
+                if fm[0] == '&&':
+                    return ev(fm[1], o) and ev(fm[2], o)
+                return ev(fm[1], o) or ev(fm[2], o)
+
+            for rel, f in sorted(ops.items()):
+                fm = formula_cached(rel, False, 0)
+                req = f"Slope::operator{rel} is true exactly when dy * p.dx {rel} dx * p.dy (cross-multiplied slopes, dx > 0)" + ('' if exact else '; ties aside')
+                found = fmt_term(f.term(f.n(f.returns()[0])['ch'][0], inline=False))[:90] if f.returns() else '?'
+                if fm is None:
+                    obs.append(Ob('SLOPE-ORDER', f, 0, req, 'unrecognised: ' + found, UNDECIDED, arm='operator' + rel))
+                    continue
+                bad = [o for o in ('<=>' if exact else '<>') if ev(fm, o) != ev(('atom', rel), o)]
+                if bad:
+                    obs.append(Ob('SLOPE-ORDER', f, f.returns()[0], req, f"`{found}` differs when dy * p.dx {bad[0]} dx * p.dy", VIOLATED, arm='operator' + rel))
+                else:
+                    obs.append(Ob('SLOPE-ORDER', f, f.returns()[0], req, f"`{found}`", OK, arm='operator' + rel))
+    if not any(o.arm in ('operator<', 'operator>') for o in obs):
+        raise AnalysisBroken('SLOPE-ORDER: Slope::operator< / operator> not found in any analysed unit')
+    return obs
+
+
 def rules_c03(ctx):
-    return rule_no_drop(ctx) + rule_rank_agree(ctx) + rule_omp_order(ctx) + rule_seam(ctx) + rule_key_arith(ctx) + [o for o in rule_geom_guards(ctx) if o.rule == 'GEOM-GUARDS'] + rule_precision(ctx)
+    return rule_no_drop(ctx) + rule_rank_agree(ctx) + rule_omp_order(ctx) + rule_seam(ctx) + rule_key_arith(ctx) + [o for o in rule_geom_guards(ctx, exact=False) if o.rule == 'GEOM-GUARDS'] + rule_slope_order(ctx, exact=False) + rule_precision(ctx)
 
 
 def rules_c04(ctx):
-    return rule_cut_sites(ctx) + rule_geom_guards(ctx)
+    return rule_cut_sites(ctx) + rule_geom_guards(ctx) + rule_slope_order(ctx)
